@@ -154,54 +154,63 @@ Definition promote (h : hmap) (tr : list bytes) : hmap * list bytes :=
 
 Definition status_field (st : Z) : list (bytes * bytes) := if st =? 0 then [] else [(s_status, dec_of_Z st)].
 
-(* writeChunk.  Returns: frames written, n (the int result; the error result is always nil here), new state, and a
-   ghost flag: the trailers HEADERS frame was due but its header block was empty, so nothing was written. *)
-Definition write_chunk (e : env) (done : bool) (p : bytes) (s0 : rws) : list frame * Z * rws * bool :=
-  let s := write_header e 200 s0 in
+(* writeChunk, first call: the response HEADERS frame.  Returns the frame, the new state and the frame's END_STREAM. *)
+Definition first_headers (e : env) (done : bool) (p : bytes) (s : rws) : frame * rws * bool :=
   let head := e_head e in
   let lenp := blen p in
-  (* first call: the response HEADERS *)
+  let clen0 := hfirst (snap s) s_ContentLength in
+  let '(snp, scl, clen1) :=
+    match clen0 with
+    | [] => (snap s, sentCL s, [])
+    | _ => match parse_int64 clen0 with
+           | Some n => if 0 <=? n then (hdel (snap s) s_ContentLength, n, clen0)
+                       else (hdel (snap s) s_ContentLength, sentCL s, [])
+           | None => (hdel (snap s) s_ContentLength, sentCL s, [])
+           end
+    end in
+  let clen := match clen1 with
+              | [] => if done && body_allowed (status s) && ((0 <? lenp) || negb head) then dec_of_Z lenp else []
+              | _ => clen1
+              end in
+  let ctype := negb (hmem snp s_ContentType) && body_allowed (status s) in
+  let date := negb (hmem snp s_Date) in
+  let tr := declare_from_snapshot snp (trailers s) in
+  let es := (done && match tr with [] => true | _ => false end && (lenp =? 0)) || head in
+  let fields := status_field (status s) ++ encode_headers snp (sort_keys (hkeys snp))
+                ++ (if ctype then [(s_content_type, [])] else [])
+                ++ (match clen with [] => [] | _ => [(s_content_length, clen)] end)
+                ++ (if date then [(s_date, [])] else []) in
+  (FH es fields, mkR (hh s) (wroteH s) (status s) snp true tr scl (wroteB s) (buf s) (berr s), es).
+
+(* writeChunk after the HEADERS (non-HEAD; p non-empty or handler done): DATA and, at the end, the trailers.
+   Last component = ghost flag: the trailers HEADERS frame was due but its header block was empty, so nothing was
+   written (writeResHeaders.writeFrame loops `for len(headerBlock) > 0`). *)
+Definition body_frames (done : bool) (p : bytes) (s1 : rws) : list frame * rws * bool :=
+  let lenp := blen p in
+  let '(h2, tr2) := if done then promote (hh s1) (trailers s1) else (hh s1, trailers s1) in
+  let s2 := mkR h2 (wroteH s1) (status s1) (snap s1) (sentH s1) tr2 (sentCL s1) (wroteB s1) (buf s1) (berr s1) in
+  let has_tr := match tr2 with [] => false | _ => true end in
+  let es := done && negb has_tr in
+  let fr2 := if (0 <? lenp) || es then [FD es p] else [] in
+  if done && has_tr then
+    match encode_headers h2 tr2 with
+    | [] => (fr2, s2, true)                        (* empty header block: no frame at all *)
+    | fields => (fr2 ++ [FH true fields], s2, false)
+    end
+  else (fr2, s2, false).
+
+(* writeChunk.  Returns: frames written, n (the int result; the error result is always nil here), new state, and the
+   ghost flag of body_frames. *)
+Definition write_chunk (e : env) (done : bool) (p : bytes) (s0 : rws) : list frame * Z * rws * bool :=
+  let s := write_header e 200 s0 in
+  let lenp := blen p in
   let '(fr1, s1, ended) :=
     if sentH s then ([], s, false)
-    else
-      let clen0 := hfirst (snap s) s_ContentLength in
-      let '(snp, scl, clen1) :=
-        match clen0 with
-        | [] => (snap s, sentCL s, [])
-        | _ => match parse_int64 clen0 with
-               | Some n => if 0 <=? n then (hdel (snap s) s_ContentLength, n, clen0)
-                           else (hdel (snap s) s_ContentLength, sentCL s, [])
-               | None => (hdel (snap s) s_ContentLength, sentCL s, [])
-               end
-        end in
-      let clen := match clen1 with
-                  | [] => if done && body_allowed (status s) && ((0 <? lenp) || negb head) then dec_of_Z lenp else []
-                  | _ => clen1
-                  end in
-      let ctype := negb (hmem snp s_ContentType) && body_allowed (status s) in
-      let date := negb (hmem snp s_Date) in
-      let tr := declare_from_snapshot snp (trailers s) in
-      let es := (done && match tr with [] => true | _ => false end && (lenp =? 0)) || head in
-      let fields := status_field (status s) ++ encode_headers snp (sort_keys (hkeys snp))
-                    ++ (if ctype then [(s_content_type, [])] else [])
-                    ++ (match clen with [] => [] | _ => [(s_content_length, clen)] end)
-                    ++ (if date then [(s_date, [])] else []) in
-      ([FH es fields], mkR (hh s) (wroteH s) (status s) snp true tr scl (wroteB s) (buf s) (berr s), es) in
+    else let '(f, s1, es) := first_headers e done p s in ([f], s1, es) in
   if ended then (fr1, 0, s1, false)
-  else if head then (fr1, lenp, s1, false)
+  else if e_head e then (fr1, lenp, s1, false)
   else if (lenp =? 0) && negb done then (fr1, 0, s1, false)
-  else
-    let '(h2, tr2) := if done then promote (hh s1) (trailers s1) else (hh s1, trailers s1) in
-    let s2 := mkR h2 (wroteH s1) (status s1) (snap s1) (sentH s1) tr2 (sentCL s1) (wroteB s1) (buf s1) (berr s1) in
-    let has_tr := match tr2 with [] => false | _ => true end in
-    let es := done && negb has_tr in
-    let fr2 := if (0 <? lenp) || es then [FD es p] else [] in
-    if done && has_tr then
-      match encode_headers h2 tr2 with
-      | [] => (fr1 ++ fr2, lenp, s2, true)                 (* empty header block: no frame at all *)
-      | fields => (fr1 ++ fr2 ++ [FH true fields], lenp, s2, false)
-      end
-    else (fr1 ++ fr2, lenp, s2, false).
+  else let '(fr2, s2, lost) := body_frames done p s1 in (fr1 ++ fr2, lenp, s2, lost).
 
 Definition set_buf (s : rws) (b : bytes) (er : bool) : rws :=
   mkR (hh s) (wroteH s) (status s) (snap s) (sentH s) (trailers s) (sentCL s) (wroteB s) b er.
